@@ -233,8 +233,95 @@ def unit_coroutine():
     return run
 
 
+class CreateModels(O.OnionModels):
+    """externals of FilesystemOnionService.create / FilesystemAuthenticatedOnionService.create: the upload wait (C15 contract,
+    proved by the units above), TorConfig.save (C10), port validation, the service constructor"""
+    def contract_for(self, ex, path, f, args, kw):
+        q = f.qualname
+        if q == '_await_descriptor_upload':
+            d = VOpaque('Deferred', 4100)
+            self.glog_add(path, 'timeline', ('subscribe', tuple(args)))
+            return [(path, d)]
+        if q in ('_canonical_hsdir', '_validate_ports'):
+            return [(path, VOpaque('hsdir' if q == '_canonical_hsdir' else 'Deferred', ex.fresh_int(path, 'x')))]
+        if q == 'version_at_least':
+            return [(path, VBool(z3.Bool('tor_reports_hs_desc')))]
+        if q.endswith('OnionService.__init__'):
+            return [(path, NONE)]
+        return O.OnionModels.contract_for(self, ex, path, f, args, kw)
+
+    def opaque_attr(self, ex, path, obj, name):
+        if obj.kind == 'config' and name == 'HiddenServices':
+            return [(path, path.heap[('g', 'hs_list')])]
+        if obj.kind == 'config' and name == 'tor_protocol':
+            return [(path, VOpaque('proto', 8700))]
+        return O.OnionModels.opaque_attr(self, ex, path, obj, name)
+
+    def method(self, ex, path, recv, name, args, kw):
+        if isinstance(recv, VOpaque) and recv.kind == 'config' and name == 'save':
+            d = VOpaque('Deferred', 4200)
+            self.glog_add(path, 'timeline', ('save', ()))
+            return [(path, d)]
+        return O.OnionModels.method(self, ex, path, recv, name, args, kw)
+
+
+def unit_fs_create(clsname):
+    def run(ctx):
+        q = clsname + '.create'
+        ctx.fn(MODULE, q)
+        ex = ctx.ex
+        path = ctx.new_path()
+        mi, node = extract.find(MODULE, q)
+        f = VFunc(node, MODULE, q, pyfunc=None)
+        hs_list = ex.new_list(path, [])
+        path.heap[('g', 'hs_list')] = hs_list
+        has_events = z3.Bool('tor_reports_hs_desc')
+        ctx.input('tor_reports_hs_desc', VBool(has_events))
+        progress = VUnion([(z3.Bool('has_progress'), VOpaque('progress_cb', 8800)), (z3.Not(z3.Bool('has_progress')), NONE)])
+        aa = VUnion([(z3.Bool('aa_none'), NONE), (z3.Not(z3.Bool('aa_none')), VBool(z3.Bool('aa_val')))])
+        ctx.cover('pre_satisfiable', path)
+        ctx.cover('pre_events', path, has_events)
+        args = [VOpaque('reactor', 1), VOpaque('config', 2), VStr(z3.String('hsdir')), VOpaque('ports', 3)]
+        kw = {'progress': progress, 'await_all_uploads': aa}
+        if clsname == 'FilesystemAuthenticatedOnionService':
+            kw['auth'] = VOpaque('auth', 4)
+        n_ok = 0
+        for p, r in ex.call(path, f, args, kw):
+            tl = ctx.models.glog(p, 'timeline')
+            kinds = [t[0] for t in tl]
+            awaited = [a[0] for a in ctx.models.glog(p, 'awaited')]
+            subs = [t for t in tl if t[0] == 'subscribe']
+            if 'save' in kinds:
+                ctx.oblige('post.upload_wait_subscribed_before_the_creating_command', p,
+                           z3.Implies(has_events, B(kinds.count('subscribe') == 1 and kinds.index('subscribe') < kinds.index('save'))),
+                           clause='listener installed before the creating command is sent: completes exactly once for any ordering of upload events')
+                ctx.oblige('post.creating_command_sent_once', p, B(kinds.count('save') == 1))
+            if subs:
+                a = subs[0][1]
+                created = ex.list_items(p, hs_list)
+                ctx.oblige('post.wait_is_for_the_service_just_created', p,
+                           B(len(a) == 4 and len(created) == 1 and a[1] is created[0] and isinstance(a[0], VOpaque) and a[0].kind == 'proto'),
+                           clause='upload events that belong to other services never complete or fail it')
+            if isinstance(r, Raise):
+                continue
+            n_ok += 1
+            waited = any(isinstance(x, VOpaque) and str(x.t) == '4100' for x in awaited)
+            ctx.oblige('post.completes_only_after_the_upload_wait', p, z3.Implies(has_events, B(waited)),
+                       clause='creation completes only after Tor reports a successful descriptor upload for that service')
+            created = ex.list_items(p, hs_list)
+            ctx.oblige('post.returns_the_created_service', p, B(len(created) == 1 and r is created[0]))
+        if not n_ok:
+            ctx.oblige('some_normal_exit', path, B(False))
+    return run
+
+
+def make_models_for(unit_name):
+    return CreateModels() if '.create' in unit_name else O.OnionModels()
+
+
 def units():
-    return [('C15/hs_desc@%s' % k, unit_hs_desc(k)) for k in ('UPLOAD', 'UPLOADED', 'FAILED')] + [('C15/coroutine', unit_coroutine())]
+    return [('C15/hs_desc@%s' % k, unit_hs_desc(k)) for k in ('UPLOAD', 'UPLOADED', 'FAILED')] + [('C15/coroutine', unit_coroutine())] + \
+        [('C15/%s.create' % c, unit_fs_create(c)) for c in ('FilesystemOnionService', 'FilesystemAuthenticatedOnionService')]
 
 
 # ==========================================================================================
